@@ -79,3 +79,26 @@ class BddModel(ObjModel):
 def install(reg):
     reg.add_model(lambda v: v.ty == TGraph, GraphModel())
     reg.add_model(lambda v: v.ty == TBdd, BddModel())
+
+
+# ---------------------------------------------------------------------- BooleanNetwork object
+TRUSTED.update({
+    "aeon.BooleanNetwork.variable_count": "number of variables of the network",
+})
+
+
+class NetObjModel(ObjModel):
+    def method(self, eng, st, v, meth, args, kw, node, recv_expr=None):
+        N = bn_net_of(v.t)
+        if meth == "variable_count":
+            st.assume(T.nvars(N) >= 0)
+            return vint(T.nvars(N))
+        raise OutOfSubset(f"BooleanNetwork.{meth}")
+
+
+_old_install = install
+
+
+def install(reg):
+    _old_install(reg)
+    reg.add_model(lambda v: v.ty == TNetObj, NetObjModel())
